@@ -189,6 +189,8 @@ def row_independence(ctx, rep, rule, methods):
                     continue
                 seen.add(construct)
                 expr = stmt.test if isinstance(stmt, (ast.If, ast.While)) else top
+                while isinstance(expr, ast.UnaryOp) and isinstance(expr.op, ast.Not):
+                    expr = expr.operand      # the negated test is the same reduction, with its branches exchanged
                 hit = table.get(repr(nfc.nf(expr)))
                 if hit:
                     rep.triaged(rule, fn, stmt, f'batch reduction `{construct}` - triaged: {hit[1]}', construct=f'{fam}.{method}: {hit[0]}')
